@@ -36,6 +36,7 @@ func runC06(l *core.Ledger) {
 	l.Rule("C06-P3", "one-way calls wait only for send confirmations: one receive per loop iteration bounded by the sent counter (Multicast) / one receive (Unicast); none reachable on the noSendWaiting edge; Unicast registers no router there")
 	l.Rule("C06-P4", "handlers of one-way methods ignore the reply channel and contain no SendMessage (generated + template)")
 	l.Rule("C06-P5", "send confirmation: a deferred closure registered in sendMsg's entry block, guarded only by waitForSend = callType != nil && !noSendWaiting; who-may-write callOptions.callType = getCallOptions")
+	l.Rule("C06-P9", "the per-node function is handed proto.Clone of the caller's request, never the request itself (the generated documentation promises a copy; the request is shared by all nodes' messages until the senders marshal it)")
 	l.Rule("C06-P7", "a reachable node gets the message: the sender tries to (re)connect for every request while the node is not connected, and that attempt is real (C10-N1 re-run)")
 	l.Rule("C06-P8", "gRPC does not replay the node stream: the dial options the library itself adds configure no service config with a retry or hedging policy (a transparently retried stream re-sends the buffered one-way messages)")
 	l.Rule("C06-P6", "generated one-way stubs forward in, opts... and wrap the per-node function as f(req.(*In), nid)")
@@ -100,12 +101,31 @@ func c06P1(l *core.Ledger, ep *entryPoint) {
 		}
 		pc := perNode[0]
 		// arguments of the per-node call
-		okArgs := len(pc.Call.Args) == 2 && sx.All(sx.Origins(pc.Call.Args[0]), isDataMessage(ep)) &&
+		// the per-node function gets a copy of the caller's request (the generated documentation
+		// promises one): proto.Clone(d.Message). The request itself is what every node's message
+		// refers to until the senders marshal it; a function that fills it in would change them all.
+		isCopyOfRequest := func(v ssa.Value) bool {
+			return sx.All(sx.Origins(v), func(o sx.Origin) bool {
+				c, isCall := o.V.(*ssa.Call)
+				if o.Kind != sx.KCall || !isCall || sx.StaticCalleeName(&c.Call) != "google.golang.org/protobuf/proto.Clone" {
+					return false
+				}
+				return sx.All(sx.Origins(c.Call.Args[0]), isDataMessage(ep))
+			})
+		}
+		if len(pc.Call.Args) == 2 && sx.All(sx.Origins(pc.Call.Args[0]), isDataMessage(ep)) {
+			l.Bad("C06-P9", k+"/per-node-copy", pc.Pos(), "the per-node function is handed the caller's request itself, not a copy: a function that fills in its argument and returns it (which the generated documentation allows: 'receives a copy') changes the one message all nodes' requests refer to, and since the messages are marshalled later most nodes receive the argument made for the last node")
+			continue
+		}
+		if len(pc.Call.Args) == 2 && isCopyOfRequest(pc.Call.Args[0]) {
+			l.OK("C06-P9", k+"/per-node-copy", pc.Pos(), "proto.Clone(d.Message)")
+		}
+		okArgs := len(pc.Call.Args) == 2 && isCopyOfRequest(pc.Call.Args[0]) &&
 			ep.loop != nil && ep.loop.nodeVal != nil && sx.All(sx.Origins(pc.Call.Args[1]), sx.IsFieldNamed("id", func(o sx.Origin) bool {
 			return o.Kind == sx.KElem && o.V == ep.loop.nodeVal.(*ssa.UnOp).X
 		}))
 		if !okArgs {
-			l.Bad("C06-P1", k+"/per-node-args", pc.Pos(), "the per-node function is not called with (d.Message, id of this iteration's node)")
+			l.Bad("C06-P1", k+"/per-node-args", pc.Pos(), "the per-node function is not called with (a copy of d.Message, id of this iteration's node)")
 			continue
 		}
 		// nil test
